@@ -302,3 +302,15 @@ Example C18_confined_satisfiable :
              (run (init_state (fun _ => 3) ex_E) [(1,9);(0,9);(0,9);(1,9);(1,9);(0,9);(1,9);(0,9)])
   = Some (seq_log (fun _ => 3) (ex_E 0) [], seq_log (fun _ => 3) (ex_E 1) []).
 Proof. split; [intros [|[|t]]; vm_compute; reflexivity | vm_compute; reflexivity]. Qed.
+
+(** State inventory (tie, translator part): every Go struct the model of this property represents has, in the
+    source as it is NOW (gen/Structs.v, regenerated on every run), exactly the fields - names, types, order - the
+    model was written against (model/StateInventory.v).  New state in these objects (a memoised digest, a cached
+    document, a remembered operand) is state the theorems above do not speak about: this is the obligation that
+    stops checking then. *)
+From GoBT Require gen.Structs model.StateInventory.
+Theorem C18_state_inventory :
+  forall k, In k (StateInventory.group_of "C18") ->
+  exists f, StateInventory.lookup_gen gen.Structs.structs k = Some f /\ StateInventory.lookup_model k = Some f.
+Proof. apply StateInventory.inventory_ok_spec. vm_compute. reflexivity. Qed.
+Print Assumptions C18_state_inventory.
